@@ -167,4 +167,7 @@ def translated : List String := ["EndBlocker_cond_1(requestContext_BatchState)",
 /-- every rejecting guard of the translated functions, in source order -/
 def guards : List String := ["UpdateRequestContext: !found", "UpdateRequestContext: err := k.CheckAuthority(ctx, consumer, requestContextID, false); err != nil", "UpdateRequestContext: err := types.ValidateRequestContextUpdating(providers, serviceFeeCap, timeout, repeatedFreq, repeatedTotal); err != nil", "UpdateRequestContext: respThreshold > uint32(len(pds))", "UpdateRequestContext: err := k.validateServiceFeeCap(ctx, serviceFeeCap); err != nil", "UpdateRequestContext: timeout > maxRequestTimeout", "UpdateRequestContext: repeatedFreq < uint64(timeout)", "UpdateRequestContext: repeatedTotal >= 1 && repeatedTotal < int64(requestContext.BatchCounter)", "StartRequestContext: !found", "StartRequestContext: err := k.CheckAuthority(ctx, consumer, requestContextID, false); err != nil", "StartRequestContext: requestContext.Repeated && requestContext.RepeatedTotal >= 0 && int64(requestContext.BatchCounter) >= requestContext.RepeatedTotal", "Keeper.CreateRequestContext: _, err := k.GetResponseCallback(moduleName); err != nil", "Keeper.CreateRequestContext: _, err := k.GetStateCallback(moduleName); err != nil", "Keeper.CreateRequestContext: err := types.ValidateRequest( serviceName, serviceFeeCap, providers, input, timeout, repeated, repeatedFrequency, repeatedTotal, ); err != nil", "Keeper.CreateRequestContext: responseThreshold < 1 || int(responseThreshold) > len(providers)", "Keeper.CreateRequestContext: !found", "Keeper.CreateRequestContext: err := types.ValidateRequestInput(input); err != nil", "Keeper.CreateRequestContext: err := k.validateServiceFeeCap(ctx, serviceFeeCap); err != nil", "Keeper.CreateRequestContext: timeout > maxRequestTimeout", "Keeper.PauseRequestContext: !found", "Keeper.PauseRequestContext: err := k.CheckAuthority(ctx, consumer, requestContextID, false); err != nil", "Keeper.KillRequestContext: !found", "Keeper.KillRequestContext: err := k.CheckAuthority(ctx, consumer, requestContextID, false); err != nil", "Keeper.AddResponse: !found", "Keeper.AddResponse: !provider.Equals(requestProvider)", "Keeper.AddResponse: !k.IsRequestActive(ctx, requestID)", "Keeper.AddResponse: err := types.ValidateResponseOutput(output); err != nil", "Keeper.AddResponse: err := k.AddEarnedFee(ctx, provider, request.ServiceFee); err != nil", "Keeper.CheckAuthority: !found", "Keeper.CheckAuthority: consumer.String() != requestContext.Consumer", "Keeper.CheckAuthority: checkModule && len(requestContext.ModuleName) > 0", "Keeper.validateServiceFeeCap: len(serviceFeeCap) != 1 || serviceFeeCap[0].Denom != baseDenom"]
 
+/-- every statement of the translated functions executed for its effect, with its nesting depth, in source order -/
+def effects : List String := ["EndBlocker: d1 k.DeleteActiveRequest( ctx, request.ServiceName, provider, request.ExpirationHeight, requestID, )", "EndBlocker: d2 k.IterateActiveRequests( ctx, requestContextID, requestContext.BatchCounter, expiredRequestHandler, )", "EndBlocker: d1 k.DeleteRequestBatchExpiration(ctx, requestContextID, ctx.BlockHeight())", "EndBlocker: d1 k.SetRequestContext(ctx, requestContextID, requestContext)", "EndBlocker: d2 k.CompleteServiceContext(ctx, requestContext, requestContextID)", "EndBlocker: d3 k.AddNewRequestBatch( ctx, requestContextID, ctx.BlockHeight()-requestContext.Timeout+int64( requestContext.RepeatedFrequency, ), )", "EndBlocker: d3 k.CompleteServiceContext(ctx, requestContext, requestContextID)", "EndBlocker: d1 k.CleanBatch(ctx, requestContext, requestContextID)", "EndBlocker: d3 k.OnRequestContextPaused(ctx, requestContext, requestContextID, \"no exchange rate\")", "EndBlocker: d3 k.DeleteNewRequestBatch(ctx, requestContextID, ctx.BlockHeight())", "EndBlocker: d4 k.OnRequestContextPaused( ctx, requestContext, requestContextID, \"insufficient balances\", )", "EndBlocker: d4 writeCache()", "EndBlocker: d4 k.AddRequestBatchExpiration( ctx, requestContextID, ctx.BlockHeight()+requestContext.Timeout, )", "EndBlocker: d3 k.SkipCurrentRequestBatch(ctx, requestContextID, *requestContext)", "EndBlocker: d1 k.DeleteNewRequestBatch(ctx, requestContextID, ctx.BlockHeight())", "EndBlocker: d0 k.IterateExpiredRequestBatch(ctx, ctx.BlockHeight(), expiredRequestBatchHandler)", "EndBlocker: d0 k.IterateNewRequestBatch(ctx, ctx.BlockHeight(), newRequestBatchHandler)", "UpdateRequestContext: d2 requestContext.ResponseThreshold = respThreshold", "UpdateRequestContext: d1 requestContext.ServiceFeeCap = serviceFeeCap", "UpdateRequestContext: d1 requestContext.Providers = pds", "UpdateRequestContext: d1 requestContext.Timeout = timeout", "UpdateRequestContext: d1 requestContext.RepeatedFrequency = repeatedFreq", "UpdateRequestContext: d1 requestContext.RepeatedTotal = repeatedTotal", "UpdateRequestContext: d0 k.SetRequestContext(ctx, requestContextID, requestContext)", "StartRequestContext: d0 requestContext.State = types.RUNNING", "StartRequestContext: d0 k.SetRequestContext(ctx, requestContextID, requestContext)", "StartRequestContext: d1 k.AddNewRequestBatch(ctx, requestContextID, ctx.BlockHeight())", "Keeper.InitiateRequests: d0 requestContext.BatchCounter++", "Keeper.InitiateRequests: d1 k.SetCompactRequest(ctx, requestID, request)", "Keeper.InitiateRequests: d1 k.AddActiveRequest( ctx, requestContext.ServiceName, provider, ctx.BlockHeight()+requestContext.Timeout, requestID, )", "Keeper.InitiateRequests: d0 requestContext.BatchState = types.BATCHRUNNING", "Keeper.InitiateRequests: d0 requestContext.BatchResponseCount = 0", "Keeper.InitiateRequests: d0 requestContext.BatchRequestCount = uint32(len(providers))", "Keeper.InitiateRequests: d0 requestContext.BatchResponseThreshold = requestContext.ResponseThreshold", "Keeper.InitiateRequests: d0 k.SetRequestContext(ctx, requestContextID, requestContext)", "Keeper.SkipCurrentRequestBatch: d0 requestContext.BatchCounter++", "Keeper.SkipCurrentRequestBatch: d0 requestContext.BatchState = types.BATCHRUNNING", "Keeper.SkipCurrentRequestBatch: d0 requestContext.BatchRequestCount = 0", "Keeper.SkipCurrentRequestBatch: d0 requestContext.BatchResponseCount = 0", "Keeper.SkipCurrentRequestBatch: d0 requestContext.BatchResponseThreshold = requestContext.ResponseThreshold", "Keeper.SkipCurrentRequestBatch: d0 k.SetRequestContext(ctx, requestContextID, requestContext)", "Keeper.SkipCurrentRequestBatch: d0 k.AddRequestBatchExpiration(ctx, requestContextID, ctx.BlockHeight()+requestContext.Timeout)", "Keeper.CreateRequestContext: d0 k.SetRequestContext(ctx, requestContextID, requestContext)", "Keeper.CreateRequestContext: d1 k.AddNewRequestBatch(ctx, requestContextID, ctx.BlockHeight())", "Keeper.PauseRequestContext: d0 requestContext.State = types.PAUSED", "Keeper.PauseRequestContext: d0 k.SetRequestContext(ctx, requestContextID, requestContext)", "Keeper.KillRequestContext: d0 requestContext.State = types.COMPLETED", "Keeper.KillRequestContext: d0 k.SetRequestContext(ctx, requestContextID, requestContext)", "Keeper.AddResponse: d0 k.SetResponse(ctx, requestID, response)", "Keeper.AddResponse: d0 k.DeleteActiveRequest(ctx, request.ServiceName, provider, request.ExpirationHeight, requestID)", "Keeper.AddResponse: d0 k.IncreaseRequestVolume(ctx, consumer, request.ServiceName, provider)", "Keeper.AddResponse: d0 requestContext.BatchResponseCount++", "Keeper.AddResponse: d0 k.SetRequestContext(ctx, requestContextID, requestContext)", "Keeper.CompleteBatch: d0 requestContext.BatchState = types.BATCHCOMPLETED", "Keeper.CompleteBatch: d1 k.Callback(ctx, requestContextID)", "Keeper.CompleteServiceContext: d0 k.DeleteRequestContext(ctx, requestContextID)", "Keeper.OnRequestContextPaused: d0 requestContext.BatchState = types.BATCHCOMPLETED", "Keeper.OnRequestContextPaused: d0 requestContext.State = types.PAUSED", "Keeper.OnRequestContextPaused: d0 k.SetRequestContext(ctx, requestContextID, *requestContext)", "Keeper.OnRequestContextPaused: d1 stateCallback(ctx, requestContextID, cause)"]
+
 end Irismod.Gen.PureServiceSched
